@@ -755,6 +755,13 @@ fn gen_source(g: &mut Gen, plans: &mut Vec<SrcPlan>, me: usize) -> String {
                         }
                     }
                 }
+                if prefix.is_empty() && !g.plain.is_empty() && g.c.chance(1, 2) {
+                    // an erroneous (prefix-less) temp directive naming a file that exists: a
+                    // build must reject it, clean must ignore it - and leave that file alone
+                    let victim = g.plain[g.c.below(g.plain.len())].clone();
+                    arg = rel_path(&dir, &victim);
+                    target.clear();
+                }
                 args.push(arg);
                 let n = g.c.below(4);
                 for _ in 0..n {
